@@ -7,7 +7,7 @@ TECH = "bounded symbolic execution of /repo's go/ssa with an SMT solver (z3) dec
 CLAIMED = {
  "C01": ("§6 C01", "All 1-3 statement scripts of the template family (sources with repeated/aliased accounts, bounded/unbounded overdraft, caps, allotments, save) run through the public Parse/Run API on symbolic balances, amounts, caps and limits; the solver shows that replaying the returned postings never takes a non-exempt account below min(start, -granted overdraft), for every integer valuation.",
          "Holds for the enumerated script shapes only; numbers are unbounded. Trusted: math/big modelled as exact integers, native ANTLR parse; StaticStore plus exact / sparse harness stores on two-asset scripts; every case also with each variable used again by a trailing send."),
- "C02": ("§6 C02", "Every posting returned by a successful run is asserted positive, between real accounts and in a send's asset, for all balances/caps/amounts (any sign) of the template family; per-asset totals equal the reference.",
+ "C02": ("§6 C02", "Every posting returned by a successful run is asserted positive, between real accounts and in a send's asset, for all balances/caps/amounts (any sign) of the template family; per-asset totals equal the reference. On shapes the reference semantics leaves undefined (e.g. a remaining clause next to portions above one) the script is still run and the posting-local clauses asserted.",
          "Script shapes bounded (<=3 leaves, <=4 destination clauses); numbers unbounded."),
  "C03": ("§6 C03", "Single fixed-amount sends over the source x destination template family: success iff the reference greedy draw can fund n; on success postings sum to n minus kept; on failure the zero result is returned with MissingFundsErr. Both directions are asserted and decided by the solver for all integer inputs.",
          "Script shapes bounded; amounts enter through monetary variables."),
@@ -23,8 +23,8 @@ CLAIMED = {
          "<=2 saves (two assets) and <=2 sends; numbers unbounded; StaticStore plus exact / sparse / interned stores."),
  "C09": ("§6 C09", "For every 2-3 statement script of the family the harness runs the whole script and each statement alone on the balances left by the previous ones (postings actually returned + the save rule), all on symbolic balances; the solver shows the postings are element-wise identical, failures coincide in class, and metadata merges key-wise with last write winning.",
          "13 statement kinds, scripts of 2-3 statements; numbers unbounded; variables do not read balances."),
- "C10": ("§6 C10", "Each script (balance()/overdraft()/meta() origins, saves, account variables, two assets) is run against four harness stores (exact, sparse, superset, static) over one symbolic truth table inside a single symbolic path; results are asserted pairwise identical for every table, and the exact store asserts that @world is never requested.",
-         "23 (quick) / 31 (thorough) templates; <=4 accounts x 2 assets; stores returning nil maps are outside."),
+ "C10": ("§6 C10", "Each script (balance()/overdraft()/meta() origins, saves, account variables, two assets) is run against five harness stores (exact, sparse, superset, static, interned) over one symbolic truth table inside a single symbolic path; results are asserted pairwise identical for every table, and the exact store asserts that @world is never requested.",
+         "43 (quick) / 51 (thorough) templates incl. scripts that read the balance of @world, a capped @world followed by another source and self-postings; <=4 accounts x 2 assets; stores returning nil maps are outside."),
  "C11": ("§6 C11", "Four harness modes per script, all on symbolic balances: purity (write-confinement monitor over the VM heap + explicit comparison of the variables map and the store's balance/metadata maps), determinism (second run under every iteration order of the maps it ranges over), flags (no flag / gate flag / unknown flag), re-entrancy by reduction (two runs on one ParseResult write only objects they allocated; no package-level variable is written).",
          "Goroutine interleavings are NOT modelled: re-entrancy is decided by write confinement (disjoint write sets cannot interfere); native replay of a confinement finding runs under the race detector. Per path one ranged map (thorough: two), each in turn, takes every order (maps > 3 entries: identity/reverse/rotation), the others insertion order. sync.Map/Once/Mutex/atomic are modelled sequentially."),
  "C12": ("§6 C12", "Every reachable Go panic site on every explored path is a violation (API template families, arbitrary variable bytes per declared type through the symbolic regexp/SetString models, one trigger per error class, store failure injected at every call, nil store maps); errors must carry the class naming the cause and come with the zero result.",
@@ -37,7 +37,7 @@ CLAIMED = {
          "Tree structure, literal values, associativity and layout/comment invariance depend on the ANTLR parse and are OUTSIDE."),
  "C16": ("§6 C16", "analysis.CheckProgram executed in the VM on parser-produced trees: 13 statically valid templates get no error (literal portion numerators symbolic: accepted exactly when they sum to one); for name templates every declaration and every use takes every name of a pool (all deletions, duplications, renamings): unbound / duplicate / unused variables are reported exactly once at their token and nothing else is.",
          "Template lists are finite; names and types are finite choices concretised by forking; numerators are unbounded. 20 two-step sequences check that a valid script gets the same diagnostics after another text was analysed in the same process."),
- "C17": ("§6 C17", "CheckProgram then RunProgram inside one symbolic path for valid templates with up to one (thorough: two) mis-declared variable types over all six types, and 61 type-breaking edits (incl. self-referencing origins and misplaced remaining clauses); whenever the checker reports no error the run (all integers as numbers/amounts, symbolic balances) does not fail with TypeError, UnboundVariable, UnboundFunction, BadArity or InvalidType; with no diagnostics at all, not with a send-all shape error either.",
+ "C17": ("§6 C17", "CheckProgram then RunProgram inside one symbolic path for valid templates with up to one (thorough: two) mis-declared variable types over all six types, and 65 type-breaking edits (incl. self-referencing origins, misplaced remaining clauses, defects in sources listed after an unbounded one); whenever the checker reports no error the run (all integers as numbers/amounts, symbolic balances) does not fail with TypeError, UnboundVariable, UnboundFunction, BadArity or InvalidType; with no diagnostics at all, not with a send-all shape error either.",
          "Template lists are finite; non-numeric variable values take one representative each."),
  "C18": ("§6 C18", "SCOPED: on each tree the real parser produces for a text of the edit corpus (prefixes, token deletions/duplications, bracket edits, hand-written broken texts) CheckSource, GetSymbols, HoverOn and GotoDefinition run in the VM with the cursor position SYMBOLIC (every line/character) and the checker's map iteration orders symbolic: every reachable panic site is a violation, diagnostics start inside the document and do not end before they start, re-analysis yields the same diagnostics and symbols.",
          "The text dimension is a bounded corpus (text -> partial tree is ANTLR error recovery, outside the encoding); positions and iteration orders are quantified by the solver."),
